@@ -52,7 +52,8 @@ var standardIdentifierBytes = [5]byte{'C', 'D', '0', '0', '1'}
 
 // types to minimize mixing of bytes and sector units
 
-type sizeSectors int32
+// sizeSectors counts sectors. Sector numbers are unsigned 32-bit on disk, so 32-bit signed type is not enough to hold them.
+type sizeSectors int64
 
 func (s sizeSectors) next() sizeSectors { return s + 1 }
 
